@@ -341,6 +341,54 @@ impl FsFault {
         ur.res
     }
 
+    /// A file that is loaded twice in one compilation and is rewritten between the two
+    /// reads (an editor or build tool saving it): the second read delivers a shorter, torn,
+    /// flipped or altogether different text.
+    fn rewrite_between_reads(&self, ctx: &Ctx, rng: &mut Rng, ur: &mut UnitRun, text: &str, ext: &str) {
+        let first = if rng.chance(0.5) { format!("/* café crème — 説明 */\n{}", text) } else { text.to_string() };
+        let first = if ext == "sass" { first.replace("/* café crème — 説明 */\n", "// café crème — 説明\n") } else { first };
+        let main = match rng.below(3) {
+            0 => "@import \"x\";\n@import \"x\";\n".to_string(),
+            1 => "@use \"x\";\n@use \"fw\";\n".to_string(),
+            _ => "@use \"sass:meta\";\n@include meta.load-css(\"x\");\n@include meta.load-css(\"x\");\n".to_string(),
+        };
+        let target = format!("/w/x.{}", ext);
+        let mut spec = JobSpec::default();
+        spec.files = vec![("/w/main.scss".into(), main.into_bytes()), (target.clone(), first.clone().into_bytes()), ("/w/_fw.scss".into(), b"@forward \"x\";\n".to_vec())];
+        spec.entry = Entry::Path("main.scss".into());
+        spec.unicode = rng.chance(0.5);
+        ur.project_hash = mix(hash_bytes(19, first.as_bytes()), mix_str(4, ext));
+        let r0 = match ur.case(&spec, true) {
+            Some(r) => r,
+            None => return,
+        };
+        // op index of the second read of the target
+        let reads: Vec<usize> = r0.fs.iter().filter(|e| e.op == FsOp::Read && e.norm == target).map(|e| e.k).collect();
+        if reads.len() < 2 {
+            return;
+        }
+        ur.res.bump("probe.file_read_twice_in_one_compilation", 1);
+        let b = first.as_bytes();
+        let mut versions: Vec<Vec<u8>> = vec![];
+        let step = (b.len() / 40).max(1);
+        let mut n = 0;
+        while n < b.len() {
+            versions.push(b[..n].to_vec());
+            n += step;
+        }
+        for _ in 0..6 {
+            versions.push(crate::simfs::apply_content_fault(b, &ContentFault::BitFlip(rng.usize_below(b.len().max(1)), rng.below(8) as u8)));
+        }
+        let other = ctx.corpus[rng.usize_below(ctx.corpus.len())].input.clone();
+        versions.push(other.into_bytes());
+        versions.push(text.as_bytes().to_vec());
+        for v in versions {
+            let mut s2 = spec.clone();
+            s2.faults = vec![Fault::Appear { at: reads[1], path: target.clone(), bytes: v }];
+            ur.case(&s2, false);
+        }
+    }
+
     /// One corpus item, as entry and as imported file, under all three
     /// extensions, torn at every offset (quick: stratified for long files).
     fn sweep_unit(&self, ctx: &Ctx, unit: u64, progress: Progress) -> UnitResult {
@@ -360,6 +408,13 @@ impl FsFault {
         if rng.chance(0.12) {
             bom_text = if rng.chance(0.2) { "\u{feff}".to_string() } else { format!("{}{}", '\u{feff}', item.input) };
             texts.push(&bom_text);
+        }
+        {
+            let ext = *rng.pick(&["scss", "scss", "sass", "css"]);
+            let t0 = texts[0].clone();
+            if t0.len() <= 2048 {
+                self.rewrite_between_reads(ctx, &mut rng, &mut ur, &t0, ext);
+            }
         }
         for text in texts {
             if text.len() > 4096 {
@@ -513,7 +568,7 @@ impl Engine for FsFault {
         }
     }
     fn rule(&self) -> String {
-        "workloads are seeded: multi-file projects (entry + 1..5 files reached through @import/@use/@forward/meta.load-css, three syntaxes, bodies from the pinned suite's inputs and outputs) and single corpus items under each extension, as entry and as loaded file. Per workload the fault position is enumerated: every Fs operation index of the fault-free run x every applicable error kind (read_err x5, canon_err, vanish, vanish-after-is_file), and per delivered file torn(n) for every byte offset n (stratified for files > 256 B in the quick tier), zeroed, zero_tail, bitflip, invalid-UTF-8 byte, stale_tail; plus a 10% tail of two-fault runs. In addition every single-bit flip of every corpus item of at most 48 bytes (thorough: 400 bytes) is delivered as an entry file. A case is non-trivial iff its fault actually fired (the call happened and was altered); distinct = distinct (workload hash, fault list) among those.".into()
+        "workloads are seeded: multi-file projects (entry + 1..5 files reached through @import/@use/@forward/meta.load-css, three syntaxes, bodies from the pinned suite's inputs and outputs) and single corpus items under each extension, as entry and as loaded file. Per workload the fault position is enumerated: every Fs operation index of the fault-free run x every applicable error kind (read_err x5, canon_err, vanish, vanish-after-is_file), and per delivered file torn(n) for every byte offset n (stratified for files > 256 B in the quick tier), zeroed, zero_tail, bitflip, invalid-UTF-8 byte, stale_tail; plus a 10% tail of two-fault runs; per sweep item one scenario in which a file loaded twice is rewritten between the two reads (shorter, torn, flipped or different text on the second read). In addition every single-bit flip of every corpus item of at most 48 bytes (thorough: 400 bytes) is delivered as an entry file. A case is non-trivial iff its fault actually fired (the call happened and was altered); distinct = distinct (workload hash, fault list) among those.".into()
     }
     fn assumptions(&self) -> Vec<String> {
         vec![
